@@ -73,6 +73,43 @@ func decorate(rng *rand.Rand, d *common.DWorld) map[string]any {
 		}
 		return nil
 	}
+	// sometimes one more DaemonSet whose template carries a required node affinity with two terms (the provisioner
+	// grafts the template's affinity onto the cached daemon pod and relaxes it term by term)
+	if rng.Intn(3) == 0 {
+		ds := gen.DaemonSet("ds-aff", 20, 16, gen.WithToleration(corev1.Toleration{Operator: corev1.TolerationOpExists}),
+			gen.WithRequiredTerms(
+				[]corev1.NodeSelectorRequirement{gen.NSR(corev1.LabelTopologyZone, corev1.NodeSelectorOpIn, "zone-nowhere")},
+				[]corev1.NodeSelectorRequirement{gen.NSR(corev1.LabelOSStable, corev1.NodeSelectorOpIn, "linux")}))
+		e.Apply(ds)
+		d.Daemons = append(d.Daemons, ds)
+		for _, n := range ready {
+			d.StartDaemons(n.Name)
+		}
+		desc["ds_with_required_affinity"] = true
+	}
+	// the daemonset controller marks its pods as controlled by the DaemonSet; without the flag Cluster.UpdateDaemonSet
+	// never caches a daemon pod and the cached-pod path of getDaemonSetPods stays cold
+	{
+		pl := &corev1.PodList{}
+		_ = e.API.Raw.List(ctx, pl)
+		t := true
+		fixed := 0
+		for i := range pl.Items {
+			p := &pl.Items[i]
+			ch := false
+			for j := range p.OwnerReferences {
+				if p.OwnerReferences[j].Kind == "DaemonSet" && p.OwnerReferences[j].Controller == nil {
+					p.OwnerReferences[j].Controller = &t
+					ch = true
+				}
+			}
+			if ch {
+				e.Apply(p)
+				fixed++
+			}
+		}
+		desc["daemon_pods"] = fixed
+	}
 	// storage
 	wait, imm := storagev1.VolumeBindingWaitForFirstConsumer, storagev1.VolumeBindingImmediate
 	e.Apply(&storagev1.StorageClass{ObjectMeta: metav1.ObjectMeta{Name: "sc-wait"}, Provisioner: "csi.a", VolumeBindingMode: &wait})
